@@ -6,7 +6,9 @@ CHECK = {
              "critical coordinates of the stored surfaces, so that every volume of every nested "
              "universe is sampled); (3) oracle-placed points next to every face of the located volume "
              "at every level (foot point X on the surface, X -+ delta n, delta = 0.003/0.02(/0.08) x "
-             "scale, both sides, 1/2 foot points per (chain, level, face))}; (1)+(2) also the "
+             "scale, both sides, 1/2 foot points per (chain, level, face)); (4) the exactly degenerate interior "
+             "points of the stored surfaces: sphere centres and up to 3 points on every cylinder axis, "
+             "of every universe instance}; (1)+(2) also the "
              "midpoints of the first 3 segments along 3 rays, reached by navigation : find_safety(), "
              "find_safety(0.5 scale) and find_safety(0.1 s) compared with the navigator's own "
              "find_next_step over 26 lattice + 12/36 rotated-Fibonacci directions (+ the direction to "
@@ -20,7 +22,8 @@ CHECK = {
         "directions / sphere points between the alphabet letters are covered only at the oracle-placed "
         "face points (exact bound towards the nearest point of that face)",
         "oracle makes no claim within 10 tol of a surface",
-        "exactly degenerate points (sphere centre, cylinder axis) are not sampled (lattice offsets)",
+        "a violation at an exactly degenerate point (4) that disappears 1e-6 x scale beside it is "
+        "reported under its own signature safety:face-ignored-at-exact-{cylinder-axis,sphere-centre}",
         "volumes the oracle scan does not find (thinner than the 17^3/25^3 lattice and not delimited by "
         "axis-aligned/centred surfaces of their own universe) get no representative",
     ],
